@@ -1,7 +1,9 @@
 mod daemon;
 mod build;
 mod evalseq;
+mod agentrun;
 mod fakecli;
+mod fakejunos;
 mod fakeirrd;
 mod frame;
 mod fuzz;
@@ -51,6 +53,7 @@ fn main() {
         "fuzz" => fuzz::main(&opts),
         "meta" => meta::main(&opts),
         "sched" => sched::main(&opts),
+        "agentrun" => agentrun::main(&opts),
         "daemon" => daemon::main(&opts),
         "ser" => ser::main(&opts),
         "plan" => plan::main(&opts),
